@@ -839,6 +839,87 @@ def r4b_pawn_captures(ctx):
     ctx.ob(rule, name, 'attack targets generated for the mover on this board', okc, expected='generate_pawn_attack_targets(&mut attack_targets, board, color)', nontrivial=False)
 
 
+def promotion_loop_form(ctx, name, names, cd):
+    """generate_pawn_moves as ONE pass over the expanded pawn moves: `for m in all_pawn_moves { if m.to & LAST_RANK == 0 { standard.push(m) }
+    else { for p in PAWN_PROMOTIONS { moves.push(promotion(m, p)) } } }; moves.append(&mut standard)`.  Decided per colour on the paths round
+    the loop (inner loop over the constant walked element by element): which mask is tested, that a move on the mask yields exactly the
+    promotions of the constant in order (and is not kept as an ordinary move), that any other move is kept exactly once, and that the kept
+    list is appended to the caller's list once, after the loop.  None when the function does not have this shape."""
+    facts = ctx.facts
+    own_helpers = {h for h in facts.only_through({name}) if h != name and facts.fns[h].kind != 'Closure'}
+    EXP = MGM + 'expand_piece_targets'
+    res = {'masks': {}, 'split_ok': True, 'expansion_ok': True}
+    for col in ('White', 'Black'):
+        try:
+            outs = Engine(facts, opaque={TGT + 'generate_pawn_move_targets', TGT + 'generate_pawn_attack_targets', EXP, MGM + 'generate_en_passant_moves'},
+                          readonly={CHESSMOVE + '::to_square', CHESSMOVE + '::from_square', CHESSMOVE + '::captures'}, max_paths=4000,
+                          inline_loops=own_helpers, unroll=True).run(name, args=[None, None, COLORS[col]])
+        except PathLimit:
+            return None
+        seen_on = seen_off = seen_exit = False
+        for o in outs:
+            if o.kind in ('abort',):
+                continue
+            heads = [e for e in o.events if e[0] == 'loop_head' and not isinstance(e[2], tuple)]
+            if not heads:
+                continue
+            h = heads[-1]
+            exp = [e for e in o.events if e[0] == 'call' and e[1] == EXP]
+            its = [v_ for v_ in h[3].values() if isinstance(v_, tuple) and v_[0] == 'call' and v_[1].endswith('into_iter')]
+            # the loop walks the list expand_piece_targets has just filled
+            if not exp or len(its) != 1 or not any(s_ == ('hv', exp[-1][3]) for s_ in subterms(its[0])):
+                continue
+            after = o.events[o.events.index(h) + 1:]
+            inside = o.conds[h[4]:]
+            nxt = [c for c in inside if c[0][0] == 'discr' and c[0][1][0] == 'call' and c[0][1][1].endswith('::next')]
+            if len(nxt) != 1:
+                return None
+            elem = ('fld', nxt[0][0][1], 'Some.0')
+            pushes = [e for e in after if e[0] == 'call' and e[1].endswith('::push')]
+            if nxt[0][1] == 0:
+                # after the loop: the kept list goes onto the caller's list exactly once
+                apps = [e for e in after if e[0] == 'call' and (e[1].endswith('::append') or e[1].endswith('::extend')) and e[2][0] == ('ref', ('der', ('p', 1)))]
+                res['split_ok'] = res['split_ok'] and len(apps) == 1 and o.kind == 'return'
+                seen_exit = True
+                continue
+            if o.kind != 'backedge':
+                return None
+            tests = [c for c in inside if c is not nxt[0]]
+            masks = set()
+            on = None
+            for a, v in tests:
+                ks = [s_[1] for s_ in subterms(a) if s_[0] == 'c' and isinstance(s_[1], int) and not isinstance(s_[1], bool) and s_[1] in (RANK[8], RANK[1])]
+                if a[0] == 'bin' and a[1] == 'BitAnd' and len(ks) == 1 and any(s_[0] == 'call' and s_[1] == CHESSMOVE + '::to_square' and is_iteration_element(s_[2][0]) for s_ in subterms(a)):
+                    masks.add(ks[0])
+                    on = not (v == 0)
+                else:
+                    return None
+            if len(masks) != 1 or on is None:
+                return None
+            m_ = masks.pop()
+            if res['masks'].setdefault(cd[col], m_) != m_:
+                return None
+            promo = [e for e in pushes if e[2][1][0] == 'agg' and e[2][1][3] == 'PawnPromotion']
+            keep = [e for e in pushes if strip_refs(e[2][1]) == elem or (e[2][1][0] == 'call' and e[2][1][1].endswith('Clone>::clone') and strip_refs(e[2][1][2][0]) == elem)]
+            if on:
+                seen_on = True
+                kinds = []
+                good = len(promo) == len(pushes) == len(names or []) and not keep
+                for e in promo:
+                    f = dict(dict(e[2][1][4])['0'][4])
+                    kinds.append(f['promote_to_piece'][3] if f['promote_to_piece'][0] == 'agg' else show(f['promote_to_piece']))
+                    good = good and e[2][0] == ('ref', ('der', ('p', 1))) and 'from_square' in show(f['from_square']) and 'to_square' in show(f['to_square']) \
+                        and 'captures' in show(f['captures'])
+                res['expansion_ok'] = res['expansion_ok'] and good and kinds == list(names or [])
+                res['split_ok'] = res['split_ok'] and not keep
+            else:
+                seen_off = True
+                res['split_ok'] = res['split_ok'] and len(pushes) == 1 and len(keep) == 1 and not promo
+        if not (seen_on and seen_off and seen_exit):
+            return None
+    return res
+
+
 def r7_promotions(ctx):
     rule = 'C01.R7-promotion-set'
     facts = ctx.facts
@@ -880,6 +961,11 @@ def r7_promotions(ctx):
                 polarity_ok = False
     cd = cdiscr(facts)
     want = {cd['White']: RANK[8], cd['Black']: RANK[1]}
+    loop_form = None
+    if not part_clo:
+        loop_form = promotion_loop_form(ctx, name, names, cd)
+        if loop_form:
+            tbl, polarity_ok = loop_form['masks'], True
     ctx.ob(rule, name, 'promotion rank: rank 8 for White, rank 1 for Black', tbl == want and polarity_ok, found={k: hex(v) for k, v in tbl.items()}, expected={k: hex(v) for k, v in want.items()})
     # expansion over the whole constant
     fn = facts.need_fn(name)
@@ -953,8 +1039,12 @@ def r7_promotions(ctx):
         has_part = any(x.endswith('Iterator::partition') for x in evs)
         if has_append and not has_part:
             unsplit += 1
-    ctx.ob(rule, name, 'no pawn move reaches the list without passing the last-rank split', unsplit == 0 and n_partition == 1 and n_append == 1,
-           found={'return paths appending without the split': unsplit, 'append sites': n_append, 'partition sites': n_partition},
+    split_ok = unsplit == 0 and n_partition == 1 and n_append == 1
+    if loop_form:
+        split_ok = loop_form['split_ok']
+        okp, iters = okp and loop_form['expansion_ok'], True
+    ctx.ob(rule, name, 'no pawn move reaches the list without passing the last-rank split', split_ok,
+           found={'return paths appending without the split': unsplit, 'append sites': n_append, 'partition sites': n_partition, 'single-pass loop': bool(loop_form)},
            expected='partition by promotion rank on every path; one append of the non-promoting part',
            why='a pawn move onto the last rank that is emitted as an ordinary move leaves a pawn on the first/eighth rank')
     iters = False
